@@ -5,7 +5,10 @@ Domain : and/or formulas (2-5 leaves, depth <= 3, every shape incl. those whose 
          x event sequences (orders with repetition + irrelevant events, length <= 10); all orders of the leaf
          events are enumerated for a fixed family of formulas with <= 4 leaves. Idle time (virtual clock of the harness,
          3 / 6 / 60 s, i.e. below / beyond the interpreter's 5 s clean-up age of finished flows) passes between the events
-         of ~half of the sequences; it is not an event, so the oracle does not see it.
+         of ~half of the sequences; it is not an event, so the oracle does not see it. A third of the cases over flows let
+         several member flows finish on the SAME event (evmap), the interpreter's random tie-breaks belong to the case
+         (`choices`, smh.Chooser), and a quarter of the cases put a second group statement directly in front of the one
+         under test (`gate`, no action statement between the two; same pool of members).
 Oracle : evaluate the formula over the set of events seen so far: the marker appears at exactly the first index
          at which the formula is true, never earlier, never twice; never if it is never true.
 """
@@ -23,13 +26,20 @@ RULE = (
     "formula F over leaves Ev0..Ev4 drawn recursively (and/or nodes with 2-3 children, depth<=3, 2-5 leaves, distinct leaves) "
     "rendered fully parenthesised as `match F` (leaves = distinct event names, or one event name with distinct parameter values, or `$r_i.Finished()` of flows started earlier) / `await F` / `when F [or when G]` (await/when leaves are flows f_i := match Ev_i(), or actions X_iAction() finished by their ActionFinished event, or a mix); optionally the statement sits behind `match Go()` and 0-4 events arrive before it becomes active (they must not count; a flow finished early can never satisfy its leaf); event sequence of <=10 events drawn from the "
     "leaf events (with repetition) and 2 irrelevant events; in a third of the cases the statement sits in `while True` and the sequence goes on over several activations (only events since the current activation count); in a third of the await/when cases over flows the member flows can fail (event Fail_i aborts f_i: it never delivers Finished; when no running member can complete the group the case stops); in a quarter of the single-case await/when cases over flows 1-2 member flows finish without any event (their Finished events count from activation on); in about half of the cases (every form, also the looping / failing / instant / gated ones) IDLE TIME passes between the events: items [position, seconds] with seconds in {3, 6, 60} (the harness owns the clock, smh.Clock; 5 s is the age after which the interpreter drops the state of finished flows) before 1-4 events of the sequence or before every event, and before pre-activation events / the activating Go - idle time is not an event, the marker is still due at exactly the first event that satisfies the formula (labels idle-time / no-idle-time, member-flow-done>5s-before-completion[+dnf>=2-and-groups] = a member flow finished more than 5 s before the completing event [and the formula normalises to >= 2 and-groups]); plus enumeration of ALL permutations of the leaf events for every "
-    "formula shape with <=4 leaves (x 3 forms), and the same permutations once more with 6 s of idle time in every gap between the events (<=3 leaves: all five forms; 4 leaves: await/when, idle time before the last two events). Non-trivial = formula uses both operators or has depth>=2; distinct by "
-    "(form, formula, sequence)."
+    "formula shape with <=4 leaves (x 3 forms), and the same permutations once more with 6 s of idle time in every gap between the events (<=3 leaves: all five forms; 4 leaves: await/when, idle time before the last two events). "
+    "SHARED EVENTS: in a third of the await / when / matchref cases over flows the member flows are f_i := match Ev_{evmap[i]}() with at least two members waiting for the same event (evmap[i] <= i drawn per flow), so several members - of one and-group, of competing or-alternatives, of the two `when` cases - finish in ONE processing cycle; the items of the sequence are event numbers and an event delivers every running member that waits for it (labels shared-events, completing-event-finishes>=2-members, completing-event-satisfies>=2-alternatives[+finishes>=2-members]). "
+    "TIE-BREAKS: the interpreter's random choices (which of several heads arriving at one merge wins, which of several equally good candidates is picked) are owned by the case: `choices` (1-3 integers 0-3, consumed cyclically by smh.Chooser; always present with shared events, in a quarter of the other cases; absent = first candidate) - the formula is satisfied whoever wins, so the oracle does not look at them (labels tie-break-asked, tie-break-asked+choice-not-first-candidate). "
+    "TWO GROUP STATEMENTS IN SEQUENCE: in a quarter of the match / matchp / await / when cases a second group statement `gate` (formula with 2-3 leaves mapped by a drawn permutation into the same pool of leaves; match / matchp in front of match / matchp, await F0 or `when F0` + assignment in front of await / when) stands directly in front of the statement under test with NO action statement between the two (also inside `while True`, behind Go, with failing members, shared events, idle time): the first statement completes by the same formula rule and the statement under test is active from exactly that event on - it starts its OWN instances of the member flows, including flows that just lost (were stopped by) or finished in the first statement (labels two-group-statements-in-sequence, first-statement-<form>-completed / -never-completed, second-statement-re-awaits-member-that-lost-the-first / -that-finished-in-the-first, second-statement-re-matches-event-of-the-first). "
+    "Enumerated on top: (shared events) every formula shape with <=3 leaves (thorough: 4) x every assignment of events to the member flows with at least one shared event x every order of the distinct events x await / when / matchref x tie-break patterns [0],[1],[2],[0,1],[1,0], plus `when F or when f2` with f2 sharing its event; (sequence) first statement `a or b` (both start orders) / `a and b` over a pool of three leaves x every formula shape with <=3 leaves behind it x every order of the three events fed twice x await-await / when-await / await-when / when-when (or-gates also match-match / matchp-matchp). "
+    "Non-trivial = the formula (of either statement of a sequence) uses both operators or has depth>=2; distinct by "
+    "(form, formula, sequence, evmap, choices, gate)."
 )
 ASSUMPTIONS = [
     "leaves of one formula are distinct events/flows (as the quantifier says)",
     "for `when F or when G` satisfied by the same event either case's marker is accepted",
     "each flow f_i finishes on the first Ev_i after the statement became active",
+    "shared events: a member flow f_i := match Ev_k() finishes on the first Ev_k after the statement that started it became active, whatever other flows wait for the same event; members finishing in one processing cycle all belong to 'the events received' at that moment, so the statement completes at that event whichever member the interpreter's random tie-break prefers",
+    "two group statements in sequence: the second statement becomes active in the processing step that completes the first one; the completing event and everything before it are not 'received since the statement became active', and a member instance started by the second statement completes when ITS instance finishes (not when an earlier instance of the same flow, started by the first statement, finishes or is stopped). Not combined with matchref (a reference's Finished event that is delivered in the same cycle right after the first statement completed would be ambiguous)",
     "time that passes between two events (any amount) is not an event: it neither satisfies nor resets a leaf - 'the first moment the set of events received since the statement became active satisfies the formula' does not depend on the clock",
 ]
 WALL = {"quick": 150, "thorough": 1500}
@@ -137,6 +147,16 @@ def formula(draw, max_leaves=5):
     return build(list(perm), 3)
 
 
+def relabel(f, m):
+    if isinstance(f, int):
+        return m[f]
+    return {"op": f["op"], "args": [relabel(a, m) for a in f["args"]]}
+
+
+def _all_leaves(case):
+    return leaves(case["f"]) + (leaves(case["g"]) if case.get("g") else []) + (leaves(case["gate"]["f"]) if case.get("gate") else [])
+
+
 @st.composite
 def _case(draw):
     form = draw(st.sampled_from(["match", "matchp", "matchref", "await", "when", "when"]))
@@ -145,34 +165,60 @@ def _case(draw):
     g = None
     if form == "when" and draw(st.booleans()):
         g = draw(formula(3))
-    alphabet = list(range(max(n, len(leaves(g)) if g else 0))) + [90, 91]
+    # a SEQUENCE of two group statements with no action statement between them: `gate` is a group statement directly in front
+    # of the statement under test, over the same pool of leaves (so the second statement awaits members that finished in / lost
+    # the first one once more); the statement under test becomes active at the event that completes the gate
+    gate = None
+    if form != "matchref" and draw(st.integers(0, 3)) == 0:
+        g0 = draw(formula(3))
+        pool = list(range(max(n, len(leaves(g)) if g else 0, 3)))
+        gate = {"form": form if form in ("match", "matchp") else draw(st.sampled_from(["await", "when"])), "f": relabel(g0, list(draw(st.permutations(pool))))}
+    nfl = max(leaves(f) + (leaves(g) if g else []) + (leaves(gate["f"]) if gate else [])) + 1
+    alphabet = list(range(nfl if gate else max(n, len(leaves(g)) if g else 0))) + [90, 91]
     seq = draw(st.lists(st.sampled_from(alphabet), min_size=1, max_size=10))
     if draw(st.booleans()):
         # make sure the formula can complete: append a permutation of all leaves
         seq = seq + list(draw(st.permutations(list(range(n)))))
+    if gate:
+        # the first part of the sequence (usually) completes the gate, the events behind it go to the statement under test
+        seq = seq[:8] + draw(st.lists(st.sampled_from(alphabet), min_size=1, max_size=6)) + list(draw(st.permutations(list(range(nfl)))))
     leaf = "flow"
     # `await A or B` over ACTIONS starts only one of them (the two starts compete as actions; documented for or-groups of
     # actions), so action leaves are only used in and-only formulas, where all of them are started
-    if form in ("await", "when") and g is None and ops(f) == {"and"}:
+    if form in ("await", "when") and g is None and gate is None and ops(f) == {"and"}:
         leaf = draw(st.sampled_from(["flow", "action", "mixed"]))
     # events that arrive BEFORE the group statement becomes active (it sits behind `match Go()`): they must not count
     pre = draw(st.lists(st.sampled_from(alphabet), max_size=4)) if draw(st.booleans()) else None
-    case = {"form": form, "f": f, "g": g, "seq": seq[:14], "leaf": leaf, "pre": pre}
+    case = {"form": form, "f": f, "g": g, "seq": seq[:20 if gate else 14], "leaf": leaf, "pre": pre}
+    if gate:
+        case["gate"] = gate
+    # SHARED EVENTS: member flows f_i := match Ev_{evmap[i]}() - several members of one group finish on the SAME event (in one
+    # processing cycle); the items of the sequence are event numbers, event e finishes every running member i with evmap[i] == e
+    if form in ("await", "when", "matchref") and leaf == "flow" and draw(st.integers(0, 2)) == 0:
+        evmap = list(range(nfl))
+        twin = draw(st.integers(1, nfl - 1))
+        for i in range(1, nfl):
+            if i == twin or draw(st.integers(0, 2)) == 0:
+                evmap[i] = evmap[draw(st.integers(0, i - 1))]
+        case["evmap"] = evmap
+    # the interpreter's random tie-breaks (which of several heads arriving at one merge / which of several equally good
+    # candidates wins) are owned by the case: smh.Chooser consumes `choices` cyclically; absent = always the first candidate
+    if "evmap" in case or draw(st.integers(0, 3)) == 0:
+        case["choices"] = draw(st.lists(st.integers(0, 3), min_size=1, max_size=3))
     # the statement sits in `while True`: every completion re-activates it and only events since THAT activation count
     if form != "matchref" and draw(st.integers(0, 2)) == 0:
         case["loop"] = True
         more = draw(st.lists(st.sampled_from(alphabet), min_size=1, max_size=8))
-        case["seq"] = (case["seq"] + more + list(draw(st.permutations(list(range(n))))))[:24]
+        case["seq"] = (case["seq"] + more + list(draw(st.permutations(list(range(nfl if gate else n))))))[:30 if gate else 24]
     # member flows may fail (event Fail_i, written 100+i): a failed flow never delivers its Finished event
     if form in ("await", "when") and leaf == "flow" and draw(st.integers(0, 2)) == 0:
         case["fail"] = True
-        nfl = max(leaves(f) + (leaves(g) if g else [])) + 1
         fails = draw(st.lists(st.integers(0, nfl - 1), min_size=1, max_size=2))
         for x in fails:
             case["seq"].insert(draw(st.integers(0, min(len(case["seq"]), 4))), 100 + x)
     # some member flows need no event at all (they finish in the step that starts them): their Finished events belong to
     # the events received since the statement became active
-    if form in ("await", "when") and leaf == "flow" and g is None and not case.get("loop") and not case.get("fail") and draw(st.integers(0, 3)) == 0:
+    if form in ("await", "when") and leaf == "flow" and g is None and gate is None and "evmap" not in case and not case.get("loop") and not case.get("fail") and draw(st.integers(0, 3)) == 0:
         case["instant"] = sorted(draw(st.lists(st.sampled_from(list(range(n))), min_size=1, max_size=2, unique=True)))
     # idle time between the events (the harness owns the clock): [position, seconds] = that much time passes right before
     # seq[position] (before pre[position] / before Go for position == len(pre)). Idle time is not an event: the oracle ignores it.
@@ -228,6 +274,63 @@ def enumerate_cases(tier):
                         yield {"form": form, "f": f, "g": None, "seq": list(p), "idle": [[2, 6.0], [3, 6.0]]}
 
 
+    yield from _enumerate_shared(tier)
+    yield from _enumerate_sequence(tier)
+
+
+TIE_BREAKS = [[0], [1], [2], [0, 1], [1, 0]]
+
+
+def _evmaps(n):
+    """Every assignment of events to n member flows in which at least two flows wait for the same event (one per set
+    partition of the flows; the event of a block is the number of its first flow)."""
+    def rec(prefix):
+        if len(prefix) == n:
+            if len(set(prefix)) < n:
+                yield list(prefix)
+            return
+        i = len(prefix)
+        for e in sorted(set(prefix)) + [i]:
+            yield from rec(prefix + [e])
+
+    yield from rec([0])
+
+
+def _enumerate_shared(tier):
+    """SHARED EVENTS x TIE-BREAKS: every formula shape with <= 3 leaves (thorough: 4) over member flows of which at least two
+    finish on the same event, every such assignment, every order of the distinct events, every tie-break pattern."""
+    for n in (2, 3) if tier == "quick" else (2, 3, 4):
+        for shape in shapes(n, 3):
+            f = label(shape)
+            for evmap in _evmaps(n):
+                for p in itertools.permutations(sorted(set(evmap))):
+                    for form in ("await", "when", "matchref") if n <= 3 else ("await", "when"):
+                        for choices in TIE_BREAKS if n <= 3 else TIE_BREAKS[:3]:
+                            yield {"form": form, "f": f, "g": None, "seq": list(p), "pre": None, "evmap": evmap, "choices": choices}
+            if n == 2:
+                # two cases: `when F ... or when f2 ...` with f2 sharing its event with a member of F
+                for evmap in _evmaps(3):
+                    for p in itertools.permutations(sorted(set(evmap))):
+                        for choices in TIE_BREAKS:
+                            yield {"form": "when", "f": f, "g": 2, "seq": list(p), "evmap": evmap, "choices": choices}
+
+
+def _enumerate_sequence(tier):
+    """TWO GROUP STATEMENTS IN SEQUENCE (no action statement between them): every two-member first statement over a pool of
+    three leaves (or: both start orders, and: one), every formula shape with <= 3 leaves behind it, every order of the three
+    events followed by the same order once more (the first statement completes somewhere in the first round)."""
+    mains = [label(shape) for n in (2, 3) for shape in shapes(n, 3)]
+    gates = [{"op": "or", "args": [a, b]} for a, b in itertools.permutations(range(3), 2)] + [{"op": "and", "args": [a, b]} for a, b in itertools.combinations(range(3), 2)]
+    for gf in gates:
+        pairs = [("await", "await"), ("when", "await"), ("await", "when"), ("when", "when")]
+        if gf["op"] == "or":
+            pairs += [("match", "match"), ("matchp", "matchp")]
+        for f in mains:
+            for p in itertools.permutations(range(3)):
+                for gform, form in pairs:
+                    yield {"form": form, "f": f, "g": None, "seq": list(p) + list(p), "pre": None, "gate": {"form": gform, "f": gf}}
+
+
 def _is_action_leaf(case, i):
     kind = case.get("leaf", "flow")
     return kind == "action" or (kind == "mixed" and i % 2 == 1)
@@ -235,21 +338,23 @@ def _is_action_leaf(case, i):
 
 def program(case):
     f, g, form = case["f"], case["g"], case["form"]
+    gate, evmap = case.get("gate"), case.get("evmap")
     ev = lambda i: f"Ev{i}()"  # noqa: E731
     fl = lambda i: f"X{i}Action()" if _is_action_leaf(case, i) else f"f{i}"  # noqa: E731
     lines = []
     evp = lambda i: f"Ev(v={i})"  # noqa: E731
     rf = lambda i: f"$r{i}.Finished()"  # noqa: E731
     if form not in ("match", "matchp"):
-        n = max(leaves(f) + (leaves(g) if g else [])) + 1
+        n = max(_all_leaves(case)) + 1
         for i in range(n):
+            e = evmap[i] if evmap else i  # shared events: several member flows wait for the same event
             if i in (case.get("instant") or []):
                 # no event is sent: flows started by different branches of an or-group would compete over their actions (C05)
                 lines += [f"flow f{i}", f"  $done = {i}", ""]
             elif case.get("fail"):
-                lines += [f"flow f{i}", f"  when Ev{i}()", "    pass", f"  or when Fail{i}()", "    abort", ""]
+                lines += [f"flow f{i}", f"  when Ev{e}()", "    pass", f"  or when Fail{i}()", "    abort", ""]
             else:
-                lines += [f"flow f{i}", f"  match Ev{i}()", ""]
+                lines += [f"flow f{i}", f"  match Ev{e}()", ""]
     lines.append("flow main")
     if form == "matchref":
         for i in sorted(set(leaves(f))):
@@ -257,6 +362,18 @@ def program(case):
     if case.get("pre") is not None:
         lines.append("  match Go()")
     body_at = len(lines)
+    if gate:
+        # a group statement directly in front of the statement under test - no action statement (send / start of an action)
+        # between the two: the second statement starts in the very processing step that completes the first one
+        gf = gate["f"]
+        if gate["form"] == "match":
+            lines += [f"  match {render(gf, ev)}"]
+        elif gate["form"] == "matchp":
+            lines += [f"  match {render(gf, evp)}"]
+        elif gate["form"] == "await":
+            lines += [f"  await {render(gf, fl)}"]
+        else:
+            lines += [f"  when {render(gf, fl)}", "    $gate = 1"]
     if form == "match":
         lines += [f"  match {render(f, ev)}", "  send Done()"]
     elif form == "matchp":
@@ -388,19 +505,35 @@ def known(case, violation):
     return None
 
 
+def _stmt_desc(case):
+    f, g, form, gate = case["f"], case["g"], case["form"], case.get("gate")
+    s = ""
+    if gate:
+        s += f"[{gate['form']} {render(gate['f'], str)}] directly followed by "
+    s += f"{form} F={render(f, str)}" + (f" G={render(g, str)}" if g else "")
+    if case.get("evmap"):
+        s += f" (member flow f_i finishes on event evmap[i], evmap={case['evmap']}; seq = event numbers)"
+    if case.get("choices"):
+        s += f" tie-breaks={case['choices']}"
+    return s
+
+
 def prop(case):
+    smh.install()
+    smh.CHOOSER.reset(case.get("choices") or [])
     if case.get("instant"):
         return _prop_instant(case)
     f, g, form, seq = case["f"], case["g"], case["form"], case["seq"]
+    gate, evmap = case.get("gate"), case.get("evmap")
     text = program(case)
     _clock_reset()
     try:
         state = smh.init(text)
     except Exception as e:  # the loader/interpreter must accept every well-formed group statement
-        raise Violation("startup-" + type(e).__name__, f"{form} {render(f, str)}" + (f" | {render(g, str)}" if g else "") + f": {e!r}"[:300])
+        raise Violation("startup-" + type(e).__name__, f"{_stmt_desc(case)}: {e!r}"[:300])
     main = [fs for fs in state.flow_states.values() if fs.flow_id == "main"]
     if not main or main[0].status.value not in ("started", "starting"):
-        raise Violation("startup-main-not-running", f"{form} {render(f, str)}" + (f" | {render(g, str)}" if g else "") + f": main is {main[0].status.value if main else 'missing'} after start")
+        raise Violation("startup-main-not-running", f"{_stmt_desc(case)}: main is {main[0].status.value if main else 'missing'} after start")
     seen = set()
     done_at = None
     exp_at = None
@@ -410,10 +543,17 @@ def prop(case):
         t = e0["type"]
         if t.startswith("StartX") and t.endswith("Action"):
             uids[int(t[6:-6])] = e0["action_uid"]
+
     def mk(e):
         if form == "matchp":
             return smh.ev("Ev", v=e)
         return smh.ev(f"Ev{e}")
+
+    def members(e):
+        """Leaves that event number e delivers (shared events: every member flow waiting for it)."""
+        if evmap:
+            return [i for i, x in enumerate(evmap) if x == e]
+        return [e]
 
     failed_out = False
     dead = set()  # matchref: flows that finished before the statement became active can never satisfy their leaf
@@ -422,13 +562,13 @@ def prop(case):
             _pass_time(case, "pre_idle", k)
             out = smh.types(smh.feed(state, mk(e)))
             if "Done" in out or "Done2" in out:
-                raise Violation(f"{form}-fired-before-active", f"{form} F={render(f, str)}: marker on pre-activation event Ev{e} of {case['pre']}" + _idle_desc(case))
+                raise Violation(f"{form}-fired-before-active", f"{_stmt_desc(case)}: marker on pre-activation event Ev{e} of {case['pre']}" + _idle_desc(case))
             if form == "matchref":
-                dead.add(e)
+                dead.update(members(e))
         _pass_time(case, "pre_idle", len(case["pre"]))
         out = smh.types(smh.feed(state, smh.ev("Go")))
         if "Done" in out or "Done2" in out:
-            raise Violation(f"{form}-fired-before-active", f"{form} F={render(f, str)} pre={case['pre']}: marker right at activation, events received before the statement became active were counted" + _idle_desc(case))
+            raise Violation(f"{form}-fired-before-active", f"{_stmt_desc(case)} pre={case['pre']}: marker right at activation, events received before the statement became active were counted" + _idle_desc(case))
         # actions of await/when groups are started at activation
         for e0 in state.outgoing_events:
             t = e0["type"]
@@ -437,6 +577,10 @@ def prop(case):
     activation = 0
     first_at = {}  # virtual time at which leaf i was first delivered in the current activation
     aged = False
+    phase = 0 if gate else 1  # 0 = the group statement in front (gate) is active, 1 = the statement under test is active
+    groups = dnf(f) + (dnf(g) if g else [])
+    under_test = set(leaves(f) + (leaves(g) if g else []))
+    extra = set()
     for idx, e in enumerate(seq):
         _pass_time(case, "idle", idx)
         if e >= 100:
@@ -451,22 +595,54 @@ def prop(case):
             if t.startswith("StartX") and t.endswith("Action"):
                 uids[int(t[6:-6])] = e0["action_uid"]
         out = smh.types(out_events)
+        before = set(seen)
         if e >= 100:
             if e - 100 not in seen:
                 dead.add(e - 100)
-        elif e not in dead:
-            seen.add(e)
-            first_at.setdefault(e, smh.Clock.virtual)
+        elif e < 90:
+            for i in members(e):
+                if i not in dead:
+                    seen.add(i)
+                    first_at.setdefault(i, smh.Clock.virtual)
         markers = [t for t in out if t in ("Done", "Done2")]
+        desc = _stmt_desc(case) + (f" pre={case['pre']}" if case.get("pre") is not None else "") + (" in `while True`" if case.get("loop") else "") + (" (100+i = flow f_i fails)" if case.get("fail") else "") + f" seq={seq}" + _idle_desc(case)
+        if case.get("loop") and activation:
+            desc += f" [activation #{activation + 1}: events since it became active {sorted(seen)}]"
+        if phase == 0:
+            # the group statement in front of the one under test is active: it completes by the same formula rule, and the
+            # statement under test becomes active right then - this event and everything before it do not count for it
+            if markers:
+                raise Violation(f"{form}-fired-before-active", f"{desc}: {markers} at step {idx} while the group statement in front is not complete (members finished since it became active: {sorted(before)} + this event)")
+            if evaluate(gate["f"], seen):
+                stopped = set(leaves(gate["f"])) - seen - dead  # members still running when the first statement completed
+                if gate["form"] in ("await", "when"):
+                    if under_test & stopped:
+                        extra.add("second-statement-re-awaits-member-that-lost-the-first")
+                    if under_test & seen:
+                        extra.add("second-statement-re-awaits-member-that-finished-in-the-first")
+                else:
+                    if under_test & seen:
+                        extra.add("second-statement-re-matches-event-of-the-first")
+                phase = 1
+                seen, dead, first_at = set(), set(), {}
+            elif case.get("fail"):
+                alive = set(range(100)) - dead
+                if not evaluate(gate["f"], alive):
+                    failed_out = True
+                    break
+            continue
         if exp_at is None:
             ok_f = evaluate(f, seen)
             ok_g = g is not None and evaluate(g, seen)
             if ok_f or ok_g:
                 exp_at = idx
                 exp_markers = {"Done"} if ok_f and not ok_g else {"Done2"} if ok_g and not ok_f else {"Done", "Done2"}
-        desc = f"{form} F={render(f, str)}" + (f" G={render(g, str)}" if g else "") + (f" pre={case['pre']}" if case.get("pre") is not None else "") + (" in `while True`" if case.get("loop") else "") + (" (100+i = flow f_i fails)" if case.get("fail") else "") + f" seq={seq}" + _idle_desc(case)
-        if case.get("loop") and activation:
-            desc += f" [activation #{activation + 1}: events since it became active {sorted(seen)}]"
+                if len(seen - before) >= 2:
+                    extra.add("completing-event-finishes>=2-members")
+                if sum(1 for grp in groups if all(x in seen for x in grp)) >= 2:
+                    extra.add("completing-event-satisfies>=2-alternatives")
+                    if len(seen - before) >= 2:
+                        extra.add("completing-event-satisfies>=2-alternatives+finishes>=2-members")
         if case.get("fail") and exp_at is None and not markers:
             alive = set(range(100)) - dead
             if not evaluate(f, alive) and not (g is not None and evaluate(g, alive)):
@@ -482,21 +658,33 @@ def prop(case):
             if len(markers) != 1 or markers[0] not in exp_markers:
                 raise Violation(f"{form}-wrong-marker", f"{desc}: {markers} at step {idx}, expected one of {sorted(exp_markers)}")
             done_at = idx
-            if form in ("await", "when", "matchref") and any(smh.Clock.virtual - first_at[x] > CLEANUP_AGE for x in set(leaves(f) + (leaves(g) if g else [])) & set(first_at) if not _is_action_leaf(case, x)):
+            if form in ("await", "when", "matchref") and any(smh.Clock.virtual - first_at[x] > CLEANUP_AGE for x in under_test & set(first_at) if not _is_action_leaf(case, x)):
                 aged = True
             if case.get("loop"):
                 # the statement is active again: only events from now on count
                 activation += 1
                 seen, dead, done_at, exp_at, exp_markers = set(), set(), None, None, None
                 first_at = {}
+                phase = 0 if gate else 1
         elif exp_at == idx:
             raise Violation(f"{form}-not-fired", f"{desc}: formula satisfied at step {idx} by {sorted(seen)} but no marker")
-    o = ops(f) | (ops(g) if g else set())
+    o = ops(f) | (ops(g) if g else set()) | (ops(gate["f"]) if gate else set())
     d = max(fdepth(f), fdepth(g) if g else 0)
     nt = len(o) == 2 or d >= 2
     labels = [form, "leaf-" + case.get("leaf", "flow"), f"depth{d}", "both-ops" if len(o) == 2 else "one-op", "completed" if exp_at is not None or activation else "never-true"]
     if g:
         labels.append("two-cases")
+    if gate:
+        labels.append("two-group-statements-in-sequence")
+        labels.append(f"first-statement-{gate['form']}" + ("-completed" if phase == 1 or activation else "-never-completed"))
+    if evmap:
+        labels.append("shared-events")
+    labels += sorted(extra)
+    if smh.CHOOSER.used:
+        ch = case.get("choices") or [0]
+        labels.append("tie-break-asked")
+        if any(ch[k % len(ch)] != 0 for k in range(smh.CHOOSER.used)):
+            labels.append("tie-break-asked+choice-not-first-candidate")
     if case.get("loop"):
         labels.append(f"re-activated-{min(activation, 3)}x")
     if case.get("fail"):
@@ -509,4 +697,6 @@ def prop(case):
         labels.append("repeats")
     labels += _idle_labels(case, aged)
     view = {"statement": text.split("flow main\n")[1].split("\n  match Never")[0], "events": [f"Ev{e}" for e in seq], "idle": case.get("idle"), "fired_at": exp_at}
+    if evmap:
+        view["evmap"] = evmap
     return ok(nt=nt, labels=labels, view=view)
